@@ -185,6 +185,7 @@ class DimFlow:
         self.cur_stmt = None
         self.skip = set(skip)
         self.evaluated = []
+        self.evaluated_in = []            # parallel to evaluated: full name of the function the statement belongs to (skip = {(full name, node id)})
         self.depth = 0
         self.returns = None
 
@@ -547,6 +548,11 @@ class DimFlow:
                 self.define(args[1], a, st)
                 return {}
             raise Unmodelled("call %s" % callee)
+        if c.get("k") == "Call" and callee in ("FEAT::assertion", "FEAT::abortion"):
+            # XASSERT / ASSERT / XABORTM: the asserted expression is a stated belief; its comparisons relate dimensions like any other
+            if args:
+                self.dim(args[0], st)
+            return {}
         if callee.startswith("FEAT::Statistics::") or nm in ("destroy", "name", "get_num_iter", "_plot_iter", "_plot_iter_line", "IterationStats", "stringify", "_print_line",
                                                                 "ExpressionStartSolve", "ExpressionEndSolve", "plot_summary", "_progress"):
             return {}
@@ -631,6 +637,8 @@ class DimFlow:
                 if nm == "component_product":
                     self.define(o, f_add(self.dim(role["x"], st), self.dim(role["y"], st)), st)
                     return {}
+                if nm in ("size", "local_size", "used_elements", "empty", "name", "bytes"):
+                    return {}
                 raise Unmodelled("vector method %s" % nm)
             if nm in ("at", "front", "back"):
                 return self.read_obj(self.key_of(c), st)
@@ -654,6 +662,7 @@ class DimFlow:
         sub.stmt_conflicts = self.stmt_conflicts
         sub.unmodelled = self.unmodelled
         sub.evaluated = self.evaluated
+        sub.evaluated_in = self.evaluated_in
         sub.returns = []
         sub.free_atoms, sub.opaque, sub.enum_fields = self.free_atoms, self.opaque, self.enum_fields
         args = c.get("a", [])
@@ -873,10 +882,11 @@ class DimFlow:
                         nested.add(x["i"])
             self.cur_flags = dict(self.flag_in.get(b, {}))
             for n in els:
-                if n["i"] in nested or n["i"] in self.skip:
+                if n["i"] in nested or (self.fn.full, n["i"]) in self.skip:
                     self.flag_step(n, self.cur_flags)
                     continue
                 self.evaluated.append(n)
+                self.evaluated_in.append(self.fn.full)
                 self.cur_stmt = n
                 try:
                     self.stmt(n, st)
@@ -903,6 +913,16 @@ class DimFlow:
                         self.dim(c, st)
                     except Unmodelled as u:
                         self.unmodelled.append("line %s: condition: %s" % (c.get("l"), u))
+        if self.depth > 0:
+            # an inlined helper: every object it touches anywhere must be visible at its exits (the caller reads the exit states),
+            # also when the exit block itself does not mention it
+            allkeys = set()
+            for b in order:
+                allkeys |= {k for k in dict.keys(ins[b]) if not k.startswith("l:")}
+            for b in cfg.normal_exit_preds():
+                if b in ins:
+                    for key in sorted(allkeys):
+                        ins[b][key]
         # edge equations; pass-through keys materialise entry unknowns in the source block, so iterate
         done = set()
         changed = True
